@@ -89,6 +89,18 @@ CLAIMED: dict[str, tuple[str, str, str, str, str]] = {
         "field-consumption dataflow over handler CFGs with interprocedural summaries (exhaustiveness table ast class x field)",
         "DESIGN §5 C32",
     ),
+    "C28": (
+        "other",
+        "Decides the immutability clause: in every method of EmulatorInstance/_Options/EmulatorBuilder, each attribute/"
+        "subscript store, mutating container call or setattr hits an object created in that method (constructor, copy, "
+        "replace; shallow-copy depth tracked), never one reachable from self or a parameter; classes are frozen dataclasses; "
+        "every with_*/..._sim returns a replace-derived configuration with a freshly constructed simulator; run passes the "
+        "configuration's own seed. Reproducibility of the backends is not decided.",
+        "Trusted: ast parser; dataclasses.replace/copy.copy are shallow, deepcopy and zero-argument constructors are deep-fresh; "
+        "results of unknown calls count as shared (mutating them is reported).",
+        "intraprocedural ownership/alias (freshness-depth) analysis + who-may-mutate lint + derivation shape rules",
+        "DESIGN §5 C28",
+    ),
 }
 
 NOT_APPLICABLE: dict[str, str] = {
